@@ -427,7 +427,10 @@ def label_lists(rep):
             a = c.args[pos]
             if isinstance(a, ast.Name):
                 binds = [d_ for d_ in defs.get(a.id, []) if d_.kind == "assign"]
-                bad = [d_ for d_ in binds if not linked(d_.value)]
+                # `x = V if x is None else x` (default of a parameter): V must be linked; the parameter's own value is the caller's business
+                def leaves(e):
+                    return leaves(e.body) + leaves(e.orelse) if isinstance(e, ast.IfExp) else [e]
+                bad = [d_ for d_ in binds if not all(linked(x_) for x_ in leaves(d_.value) if not (isinstance(x_, ast.Name) and x_.id == a.id))]
                 is_param = any(d_.kind == "param" for d_ in defs.get(a.id, []))
                 ok = not bad and (bool(binds) or is_param)
                 rep.ob("O12.1", "R13", fi, ok, alpha(bad[0].stmt, fi.node) if bad else f"{what}: one entry per selected label",
